@@ -30,7 +30,8 @@ RUNS = {"quick": 640, "thorough": 30000}
 WALL_LIMIT = {"quick": 1500, "thorough": 5 * 3600}
 PROBES = ["same_column_at_two_levels", "non_nested_entity_sets_in_chain", "decoy_sidecar", "excluded_dir_with_files", "listing_permuted",
           "orders_compared", "cli_exit_checked", "cli_nonzero_expected", "sidecar_at_root", "sidecar_at_sub", "sidecar_at_ses",
-          "sidecar_at_leaf", "files_with_issues", "chain_length_3plus"]
+          "sidecar_at_leaf", "files_with_issues", "chain_length_3plus", "excluded_dir_below_top_level",
+          "entity_value_prefix_of_another"]
 RULE = ("Each run generates a tree: dataset_description.json; 1-3 subjects x 0-2 sessions x 1-2 tasks x 1-2 runs of *_events.tsv; "
         "*_events.json sidecars at any subset of {root, sub, ses, leaf directory} with any subset of the entities of the files below "
         "them (at most one applicable sidecar per directory and events file), several defining the same column key with different "
@@ -74,7 +75,7 @@ def _init():
 
 
 PLAIN = ["Red", "Blue", "Green", "Square", "Circle", "Triangle", "Cross", "Face", "Yellow", "Black", "White", "Star"]
-TASKS = ["go", "rest"]
+TASKS = ["go", "rest", "gonogo"]
 
 
 def _ann(g, bad=False):
@@ -102,6 +103,7 @@ def generate(run_index, seed, tier):
     use_ses = g.pick([0, 0, 1, 2])
     tasks = g.subset(TASKS, 1, 2)
     n_runs = g.pick([1, 1, 2])
+    run_names = g.pick([["1", "2"], ["1", "10"], ["1", "10"]])
     for s in range(1, n_sub + 1):
         for ses in (range(1, use_ses + 1) if use_ses else [None]):
             for task in tasks:
@@ -114,7 +116,7 @@ def generate(run_index, seed, tier):
                     d.append("eeg")
                     ents.append(("task", task))
                     if n_runs > 1:
-                        ents.append(("run", str(run)))
+                        ents.append(("run", run_names[run - 1]))
                     name = "_".join("%s-%s" % e for e in ents) + "_events.tsv"
                     rows = []
                     t = 0.0
@@ -176,6 +178,15 @@ def generate(run_index, seed, tier):
         decoys.append({"path": "derivatives/pipe/events.json", "content": {"trial_type": {"HED": {"a": "Redd"}}}})
     if g.chance(0.3):
         decoys.append({"path": "code/events.json", "content": {"stim": {"HED": {"a": "Grren"}}}})
+    if g.chance(0.4) and files:
+        # excluded directory names below the top level take no part either
+        f0 = g.pick(files)
+        parts = f0["path"].split("/")
+        depth = g.randrange(1, len(parts))
+        ex = g.pick(["derivatives", "code", "stimuli", "sourcedata"])
+        base = "/".join(parts[:depth] + [ex])
+        decoys.append({"path": base + "/" + parts[-1], "rows": [["1", "0.5", "a", "x", "a", "Grren"]]})
+        decoys.append({"path": base + "/events.json", "content": {"trial_type": {"HED": {"a": "Redd"}}}})
     if g.chance(0.3) and files:
         # a sidecar in a sibling directory must not apply
         other = "sub-99/sub-99_events.json" if not any(f["path"].startswith("sub-99") for f in files) else None
@@ -320,6 +331,11 @@ def execute(sc, script=None):
         probe("decoy_sidecar")
     if any(d["path"].split("/")[0] in EXCLUDED for d in sc["decoys"]):
         probe("excluded_dir_with_files")
+    if any(set(d["path"].split("/")[1:-1]) & EXCLUDED for d in sc["decoys"]):
+        probe("excluded_dir_below_top_level")
+    names = [f["path"] for f in sc["files"]]
+    if any("task-gonogo" in n for n in names) and any("task-go_" in n for n in names + json_paths):
+        probe("entity_value_prefix_of_another")
     # ---- reference issue multiset from the per-file validators (different entry point, trusted here)
     warn = sc["warnings"]
     from hed.errors import ErrorHandler
